@@ -553,7 +553,7 @@ func c03Scripts(w wireBody, thorough bool, f func(memhttp.Script) bool) {
 func TestC03(t *testing.T) {
 	c := ev.New("C03")
 	defer func() { _ = c.Finish() }()
-	c.SetRule("environment-answer enumeration: a corpus of valid request and response bodies captured from real peers (the library itself and the reference encoder; one message, a-z-b, zero messages, error end with details, gzip, metadata, large) per protocol is replayed to the real client / handler under every segmentation into non-empty reads (all 2^(n-1) for bodies up to 12 (quick) / 16 (thorough) bytes; for longer ones every choice of <= 2 / 3 cut positions, all strides 1..8, for 70 KiB bodies every position around each 5-byte prefix and payload boundary) x {EOF on a separate read, EOF returned with the last data}; each body also under a read limit one below and exactly at its largest frame (every single cut, strides 1..3); differential oracle: observation (messages, end of stream or error code and text, metadata) identical to the one-piece delivery; runs in a bubble so a stuck read loop is a deterministic deadlock; distinct = (body, script); non-trivial = more than one read")
+	c.SetRule("environment-answer enumeration: a corpus of valid request and response bodies captured from real peers (the library itself and the reference encoder; one message, a-z-b, zero messages, error end with details, gzip, metadata, large) per protocol is replayed to the real client / handler under every segmentation into non-empty reads (all 2^(n-1) for bodies up to 12 (quick) / 16 (thorough) bytes; for longer ones every choice of <= 2 / 3 cut positions, all strides 1..8, for 70 KiB bodies every position around each 5-byte prefix and payload boundary) x {EOF on a separate read, EOF returned with the last data}; each body also under a read limit one below and exactly at its largest frame (every single cut, strides 1..3); refused unary Connect bodies of limit+1+T-1, T, T+1 bytes for every integer constant T in [64 KiB, 64 MiB] named in the source of the working tree, in one piece / 64 KiB / 1 MiB pieces; differential oracle: observation (messages, end of stream or error code and text, metadata) identical to the one-piece delivery; runs in a bubble so a stuck read loop is a deterministic deadlock; distinct = (body, script); non-trivial = more than one read")
 	c.Assume("segmentation is applied at the io.Reader the library reads from (Response.Body / Request.Body)")
 	thorough := ev.Thorough()
 	if ev.ReplayFile() != "" {
